@@ -17,7 +17,9 @@ WellFormedAmount(s) == s.decl_len = -2 \/ (s.decl_len >= 0 /\ s.decl_len <= 8)
 
 \* amount to deliver; -1 = ambiguous or missing
 AmountOf(s, v) ==
-  IF v.amt # 0
+  IF v.zero          \* the invoice states an amount of 0: an amount field naming anything else contradicts it
+  THEN IF WellFormedAmount(s) /\ s.decl # 0 THEN -1 ELSE 0
+  ELSE IF v.amt # 0
   THEN IF WellFormedAmount(s) /\ s.decl # v.amt THEN -1 ELSE v.amt
   ELSE IF WellFormedAmount(s) THEN s.decl ELSE -1
 
